@@ -446,11 +446,12 @@ def run_plan(pid, tier, seed, extra_cov=None, t0=None):
         # 6c. the free list itself: FreeList!Finish predicts the list after each sync from the list before it
         flpairs = [pr for pr in pairs if "bumps" not in pr and "flp" in pr["a"] and "flp" in pr["b"]
                    and not (pr["a"]["flp"] == pr["b"]["flp"] and pr["a"]["bump"] == pr["b"]["bump"] and pr["a"]["live"] == pr["b"]["live"])]
-        if tier == "quick" and len(flpairs) > 500:
-            # all pairs with a list of several pages, a sample of the rest
-            big = [pr for pr in flpairs if len(pr["a"]["flp"]) > 1 or len(pr["b"]["flp"]) > 1]
-            small = [pr for pr in flpairs if not (len(pr["a"]["flp"]) > 1 or len(pr["b"]["flp"]) > 1)]
-            flpairs = big + rng.sample(small, max(0, min(len(small), 500 - len(big))))
+        # pairs with a list of several pages take seconds each in TLC (thousands of items): a bounded number of those,
+        # and a sample of the small ones
+        big = [pr for pr in flpairs if len(pr["a"]["flp"]) > 1 or len(pr["b"]["flp"]) > 1]
+        small = [pr for pr in flpairs if not (len(pr["a"]["flp"]) > 1 or len(pr["b"]["flp"]) > 1)]
+        nbig, nsmall = (40, 460) if tier == "quick" else (160, 4000)
+        flpairs = (big if len(big) <= nbig else rng.sample(big, nbig)) + (small if len(small) <= nsmall else rng.sample(small, nsmall))
         if flpairs:
             bad_fl = validate_freelist(flpairs, pid)
             multi = sum(1 for pr in flpairs if len(pr["a"]["flp"]) > 1 or len(pr["b"]["flp"]) > 1)
@@ -507,7 +508,7 @@ def validate_freelist(pairs, tag):
     cfg = os.path.join(C.OUT, "FreeListTrace_%s.cfg" % tag)
     C.write_cfg(cfg, "TSpec", dict(M=1022, MaxPage=100000000, MaxAlloc=0, MaxFreed=0, MaxSyncs=0, Drop=set(), AllSubsets=False, MaxWaste=160),
                 postcondition="Finished")
-    rc, out = C.run_tlc("FreeListTrace.tla", cfg, tag="freelisttrace" + tag, nworkers=1, timeout=2400, heap="8g", env_extra={"TRACE": tp},
+    rc, out = C.run_tlc("FreeListTrace.tla", cfg, tag="freelisttrace" + tag, nworkers=1, timeout=3600, heap="8g", env_extra={"TRACE": tp},
                         java_opts="-Xss1g -Dtlc2.tool.queue.IStateQueue=StateDeque")
     if '"TRACE-COMPLETE"' not in out:
         raise C.ToolError("FreeListTrace did not complete:\n" + out[-2000:])
